@@ -158,6 +158,7 @@ func (ex *Exec) callCommon(st *State, instr ssa.CallInstruction, c *ssa.CallComm
 	case ex.pureMode:
 		unsup("call to %s in pure function (callee has no pure contract)", shortKey(key))
 	case key != "" && inertWritesArgs(key):
+		ex.allocAdvance(st)
 		for _, t := range resTypes {
 			results = append(results, ex.freshVal("r."+short, t))
 		}
@@ -171,6 +172,7 @@ func (ex *Exec) callCommon(st *State, instr ssa.CallInstruction, c *ssa.CallComm
 			}
 		}
 	case key != "" && (isInert(key) || (sfn != nil && ex.P.readOnly(sfn))):
+		ex.allocAdvance(st)
 		for _, t := range resTypes {
 			results = append(results, ex.freshVal("r."+short, t))
 		}
@@ -196,10 +198,7 @@ func (ex *Exec) callCommon(st *State, instr ssa.CallInstruction, c *ssa.CallComm
 	if !ex.pureMode {
 		for i, t := range resTypes {
 			if i < len(results) {
-				switch t.Underlying().(type) {
-				case *types.Pointer, *types.Map:
-					ex.assumeAllocated(st, ex.pcCur, results[i])
-				}
+				ex.assumeTypeAlloc(st, ex.pcCur, t, results[i])
 			}
 		}
 		rec.res = results
